@@ -1,0 +1,474 @@
+// Verification contracts (comment-only, compiled only with the "verif" build tag; read by /verif/govc).
+
+//go:build verif
+// +build verif
+
+package trie
+
+// Contracts for encoding.go, trie.go, proof.go — property C13.
+
+// ---------------------------------------------------------------------------------------------------------------------
+// GROUP 1 — encoding.go: the three key encodings.
+
+//@ func hasTerm props C13
+//@ panics none
+//@ modifies nothing
+//@ ensures [def] result == (len(s) > 0 && s[len(s)-1] == 16)
+
+//@ func keybytesToHex props C13
+//@ panics none
+// (panic condition of make: 2*len+1 does not overflow — assumed at call sites that do not claim panic freedom, like a library precondition)
+//@ requires [nonnil] len(str) < 2^62
+//@ modifies nothing
+//@ loop rangeindex invariant [index] -1 <= rangeindex && rangeindex < len(str) && len(nibbles) == 2*len(str) + 1 && fresh(nibbles)
+//@ loop rangeindex invariant [frame] forall r: *[1]byte :: r < old(alloc()) ==> elems(r) == old(elems(r))
+//@ loop rangeindex invariant [nibbles] forall k: int :: 0 <= k && k <= rangeindex ==> nibbles[2*k] == str[k] / 16 && nibbles[2*k+1] == str[k] % 16
+//@ ensures [len] len(result) == 2*len(str) + 1 && fresh(result)
+//@ ensures [nibbles] forall k: int :: 0 <= k && k < len(str) ==> result[2*k] == str[k] / 16 && result[2*k+1] == str[k] % 16
+//@ ensures [terminator] result[2*len(str)] == 16
+//@ loop rangeindex invariant [nibble-at] forall p: int :: off(nibbles) <= p && p < off(nibbles) + 2*(rangeindex+1) ==> elems(nibbles)[p] == c13NibAt(str, p - off(nibbles))
+//@ ensures [hex-of-key] c13IsHexOfKey(result, str)
+//@ loop rangeindex invariant [nibble-range] forall p: int :: off(nibbles) <= p && p < off(nibbles) + 2*(rangeindex+1) ==> elems(nibbles)[p] < 16
+// the result is a well-formed hex key: nibbles, then the terminator (c13KeyWF is defined with the trie invariants below)
+//@ ensures [well-formed] c13KeyWF(result) && result[len(result)-1] == 16
+
+// Bit-or of two values with disjoint bit ranges is their sum. `bor` is the engine's uninterpreted stand-in for Go's `|` on operands whose ranges
+// it cannot bound syntactically (here: a byte loaded from memory that is < 16 only by the caller's precondition). TRUSTED arithmetic fact about `|`
+// (engine_requests/C13.md #1), stated for the two alignments that occur in encoding.go (`x<<4 | nibble`, `flag<<5 | 1<<4`).
+//@ axiom [c13-bor-disjoint-4] forall a: int, b: int :: { bor(a, b) } 0 <= a && a % 16 == 0 && 0 <= b && b < 16 ==> bor(a, b) == a + b
+//@ axiom [c13-bor-disjoint-5] forall a: int, b: int :: { bor(a, b) } 0 <= a && a % 32 == 0 && 0 <= b && b < 32 ==> bor(a, b) == a + b
+// `len(hex)&1` on the SIGNED int len(hex): the engine makes `x & (2^k-1)` exact for unsigned operands only; a length is never negative.
+// TRUSTED arithmetic fact about `&` (engine_requests/C13.md #2).
+//@ axiom [c13-band-parity] forall a: int :: { band(a, 1) } 0 <= a ==> band(a, 1) == a % 2
+
+// decodeNibbles packs two nibbles per byte. The packed value is exact whenever both nibbles are < 16 (`<<4` on a byte drops the high half, `|` of
+// overlapping bits is not addition), which is what every caller passes.
+//@ func decodeNibbles props C13
+//@ panics none
+//@ requires [even] len(nibbles) % 2 == 0 && len(bytes) >= len(nibbles) / 2
+//@ requires [disjoint] base(nibbles) != base(bytes)
+//@ modifies elems(bytes)
+//@ loop ni invariant [index] ni == 2*bi && 0 <= bi && ni <= len(nibbles)
+//@ loop ni invariant [frame-others] forall r: *[1]byte :: r != base(bytes) ==> elems(r) == old(elems(r))
+//@ loop ni invariant [frame] forall p: int :: p < off(bytes) || p >= off(bytes) + bi ==> elems(bytes)[p] == old(elems(bytes)[p])
+//@ let nib0 = c13Nib(nibbles, 0, len(nibbles))
+//@ loop ni invariant [source] elems(nibbles) == old(elems(nibbles))
+// (stepping stone: the instance of nib0 the next iteration needs; the solver does not find it inside [packed])
+//@ loop ni invariant [next-pair] nib0 && ni < len(nibbles) ==> nibbles[ni] < 16 && nibbles[ni+1] < 16
+//@ loop ni invariant [packed] nib0 ==> (forall p: int :: off(bytes) <= p && p < off(bytes) + bi ==> elems(bytes)[p] == nibbles[2*(p - off(bytes))]*16 + nibbles[2*(p - off(bytes)) + 1])
+//@ loop ni decreases len(nibbles) - ni
+//@ ensures [packed] nib0 ==> (forall p: int :: off(bytes) <= p && p < off(bytes) + len(nibbles) / 2 ==> elems(bytes)[p] == nibbles[2*(p - off(bytes))]*16 + nibbles[2*(p - off(bytes)) + 1])
+//@ ensures [frame] forall p: int :: p < off(bytes) || p >= off(bytes) + len(nibbles) / 2 ==> elems(bytes)[p] == old(elems(bytes)[p])
+
+// c13Nib(h, lo, n): the n entries h[lo], …, h[lo+n-1] are nibbles (< 16).
+// (quantified over ABSOLUTE positions of the backing array, so that the solver's pattern is a bare index: sums are flattened by z3 and `off+q` never matches)
+//@ spec func c13Nib(h: []byte, lo: int, n: int) bool = forall p: int :: off(h) + lo <= p && p < off(h) + lo + n ==> elems(h)[p] < 16
+// number of nibbles of a hex key without its terminator
+//@ spec func c13HexLen(h: []byte) int = if len(h) > 0 && h[len(h)-1] == 16 then len(h) - 1 else len(h)
+
+// hexToKeybytes: defined on nibble strings of even length (with or without terminator); byte k is the pair (2k, 2k+1).
+//@ func hexToKeybytes props C13
+//@ panics none
+//@ requires [even] c13HexLen(hex) % 2 == 0
+//@ modifies nothing
+//@ ensures [len] len(result) == c13HexLen(hex) / 2 && fresh(result)
+//@ ensures [key-of-hex] c13Nib(hex, 0, c13HexLen(hex)) ==> c13IsKeyOfHex(result, hex)
+
+// prefixLen: the length of the longest common prefix.
+//@ func prefixLen props C13
+//@ panics none
+//@ modifies nothing
+//@ loop i invariant [index] 0 <= i && i <= len(a) && i <= len(b) && length == min(len(a), len(b))
+//@ loop i invariant [common] forall p: int :: off(a) <= p && p < off(a) + i ==> elems(a)[p] == b[p - off(a)]
+//@ loop i decreases length - i
+//@ ensures [bounds] 0 <= result && result <= len(a) && result <= len(b)
+//@ ensures [common] forall p: int :: off(a) <= p && p < off(a) + result ==> elems(a)[p] == b[p - off(a)]     // (absolute positions of a)
+//@ ensures [maximal] result < len(a) && result < len(b) ==> a[result] != b[result]
+
+// concat: a NEW slice holding s1 followed by s2 (never aliases its arguments: n.Key may be shared with other nodes).
+//@ func concat props C13
+//@ panics none
+// (panic condition of make: the sum of two lengths does not overflow — assumed at call sites that do not claim panic freedom, like a library precondition)
+//@ requires [nonnil] len(s1) + len(s2) < 2^62
+//@ modifies nothing
+//@ ensures [len] len(result) == len(s1) + len(s2) && fresh(result)
+//@ ensures [first] forall p: int :: off(result) <= p && p < off(result) + len(s1) ==> elems(result)[p] == s1[p - off(result)]
+//@ ensures [second] forall p: int :: off(result) + len(s1) <= p && p < off(result) + len(s1) + len(s2) ==> elems(result)[p] == s2[p - off(result) - len(s1)]
+
+// The j-th nibble of the byte string c (high nibble first).
+//@ spec func c13NibAt(c: []byte, j: int) int = if j % 2 == 0 then c[j / 2] / 16 else c[j / 2] % 16
+
+// THE THREE ENCODINGS AS RELATIONS (what the four functions compute, element by element). The element clauses are quantified over the ABSOLUTE
+// position p in the backing array of the string being characterised (index p - off): see c13Nib.
+// h is the HEX encoding of the key bytes k: every byte split into two nibbles, then the terminator.
+//@ spec func c13IsHexOfKey(h: []byte, k: []byte) bool =
+//@     len(h) == 2*len(k) + 1 && h[2*len(k)] == 16 &&
+//@     (forall p: int :: off(h) <= p && p < off(h) + 2*len(k) ==> elems(h)[p] == c13NibAt(k, p - off(h)))
+// r is the KEYBYTES encoding of the (even-length) nibble string h.
+//@ spec func c13IsKeyOfHex(r: []byte, h: []byte) bool =
+//@     len(r) == c13HexLen(h) / 2 &&
+//@     (forall p: int :: off(r) <= p && p < off(r) + len(r) ==> elems(r)[p] == h[2*(p - off(r))]*16 + h[2*(p - off(r)) + 1])
+// c is the COMPACT (hex-prefix) encoding of the nibble string h: flag nibble = 2*terminator + odd, then the first nibble if odd, then pairs.
+//@ spec func c13IsCompactOf(c: []byte, h: []byte) bool =
+//@     len(c) == c13HexLen(h) / 2 + 1 &&
+//@     c[0] == (if c13HexLen(h) < len(h) then 32 else 0) + (if c13HexLen(h) % 2 == 1 then 16 + h[0] else 0) &&
+//@     (forall p: int :: off(c) + 1 <= p && p < off(c) + len(c) ==>
+//@         elems(c)[p] == h[c13HexLen(h) % 2 + 2*(p - off(c) - 1)]*16 + h[c13HexLen(h) % 2 + 2*(p - off(c) - 1) + 1])
+// r is the HEX decoding of the compact string c (len(c) >= 1): flag nibble f = c[0]/16; odd = f%2 keeps the low nibble of c[0]; terminator iff f >= 2.
+//@ spec func c13IsHexOfCompact(r: []byte, c: []byte) bool =
+//@     len(r) == 2*(len(c)-1) + (c[0]/16) % 2 + (if c[0]/16 < 2 then 0 else 1) &&
+//@     (forall p: int :: off(r) <= p && p < off(r) + 2*(len(c)-1) + (c[0]/16) % 2 ==> elems(r)[p] == c13NibAt(c, 2 - (c[0]/16) % 2 + p - off(r))) &&
+//@     (c[0]/16 >= 2 ==> r[len(r)-1] == 16)
+
+// hexToCompact: total (no precondition beyond the size bound); exact on nibble strings.
+//@ func hexToCompact props C13
+//@ panics none
+//@ requires [size] len(hex) < 2^62
+//@ modifies nothing
+//@ let L = c13HexLen(hex)
+//@ let nibs = c13Nib(hex, 0, c13HexLen(hex))
+//@ ensures [len] len(result) == L / 2 + 1 && fresh(result)
+//@ ensures [flag-even] L % 2 == 0 ==> result[0] == (if L < len(hex) then 32 else 0)
+//@ ensures [flag-odd] L % 2 == 1 && hex[0] < 16 ==> result[0] == (if L < len(hex) then 32 else 0) + 16 + hex[0]
+//@ ensures [compact-of] nibs ==> c13IsCompactOf(result, hex)
+
+// compactToHex: total. On the empty string (no flag byte — only foreign node bytes can contain that) it returns the empty key; this guard is the
+// repair of finding C13/compacttohex_empty_input (without it the function panics with slice bounds [2:1], reachable from decodeNode).
+//@ func compactToHex props C13
+//@ panics none
+// (panic condition of make inside keybytesToHex)
+//@ requires [nonnil] len(compact) < 2^62
+//@ modifies nothing
+//@ ensures [empty] len(compact) == 0 ==> len(result) == 0
+//@ ensures [hex-of-compact] len(compact) >= 1 ==> c13IsHexOfCompact(result, compact)
+//@ ensures [fresh] len(compact) >= 1 ==> fresh(result)
+
+// ---------------------------------------------------------------------------------------------------------------------
+// LEMMAS over the relations above (which are the verified postconditions of the four functions): the encodings are injective because each has a
+// left inverse. In a lemma heap cells are unconstrained integers, hence the explicit byte ranges.
+// (and slices are unconstrained records: a length is not negative)
+//@ spec func c13Bytes(s: []byte) bool = len(s) >= 0 && off(s) >= 0 && (forall p: int :: 0 <= elems(s)[p] && elems(s)[p] <= 255)
+// a nibble string: entries < 16, optionally followed by the terminator 16
+//@ spec func c13NibString(h: []byte) bool = c13Bytes(h) && c13Nib(h, 0, c13HexLen(h))
+//@ spec func c13Same(a: []byte, b: []byte) bool = len(a) == len(b) && (forall i: int :: 0 <= i && i < len(a) ==> a[i] == b[i])
+
+// hexToKeybytes(keybytesToHex(k)) == k, for every byte string k.
+//@ lemma [C13.keybytes-hex-roundtrip] forall k: []byte, h: []byte, r: []byte ::
+//@     c13Bytes(k) && c13IsHexOfKey(h, k) && c13IsKeyOfHex(r, h) ==> c13Same(r, k)
+// keybytesToHex produces a nibble string with terminator of even nibble count (so hexToKeybytes's and hexToCompact's exactness premises hold on it).
+//@ lemma [C13.hex-of-key-is-nibble-string] forall k: []byte, h: []byte ::
+//@     c13Bytes(k) && c13IsHexOfKey(h, k) ==> c13Nib(h, 0, c13HexLen(h)) && c13HexLen(h) == 2*len(k) && c13HexLen(h) < len(h)
+// compactToHex(hexToCompact(h)) == h, for every nibble string h: with or without terminator, odd or even, empty included.
+//@ lemma [C13.compact-roundtrip] forall h: []byte, c: []byte, r: []byte ::
+//@     c13NibString(h) && c13Bytes(c) && c13IsCompactOf(c, h) && c13IsHexOfCompact(r, c) ==> c13Same(r, h)
+// injectivity of keybytesToHex: a hex string is the encoding of at most one key — both candidates are, byte for byte, the same function of h
+// (the conclusion names that function so that the solver has the instances of h it needs; `k1[i] == k2[i]` is the statement).
+//@ lemma [C13.keybytes-hex-injective] forall k1: []byte, k2: []byte, h: []byte ::
+//@     c13Bytes(k1) && c13Bytes(k2) && c13IsHexOfKey(h, k1) && c13IsHexOfKey(h, k2) ==>
+//@     len(k1) == len(k2) && (forall i: int :: 0 <= i && i < len(k1) ==> k1[i] == h[2*i]*16 + h[2*i+1] && k2[i] == h[2*i]*16 + h[2*i+1] && k1[i] == k2[i])
+// injectivity of hexToCompact: a compact string is the encoding of at most one nibble string (same form: both are the nibbles of c after the flag)
+//@ lemma [C13.compact-injective] forall h1: []byte, h2: []byte, c: []byte ::
+//@     c13NibString(h1) && c13NibString(h2) && c13Bytes(c) && c13IsCompactOf(c, h1) && c13IsCompactOf(c, h2) ==>
+//@     len(h1) == len(h2) && c13HexLen(h1) == c13HexLen(h2) &&
+//@     (forall j: int :: 0 <= j && j < c13HexLen(h1) ==> h1[j] == c13NibAt(c, 2 - c13HexLen(h1) % 2 + j) && h2[j] == c13NibAt(c, 2 - c13HexLen(h1) % 2 + j) && h1[j] == h2[j]) &&
+//@     (c13HexLen(h1) < len(h1) ==> h1[len(h1)-1] == 16 && h2[len(h1)-1] == 16)
+
+// ---------------------------------------------------------------------------------------------------------------------
+// GROUP 2 — structural canonical form of the in-memory trie, preserved by insert and delete.
+//
+// canon(n) is a recursive predicate over the node heap; the engine's recursive spec functions cannot read the heap, so it is stated in the
+// closed-set form: there are two sets of node objects, c13S (short nodes) and c13F (full nodes) — ghost state — such that
+//   * every member is LOCALLY canonical (c13LocalS / c13LocalF below) and
+//   * every child reference of a member is a value, a hash reference, or again a member (c13Ref),
+// and the root is a member or locally canonical over the members (c13Canon). On a finite acyclic heap this is canon(root).
+// Protocol: insert/delete return a node that is canonical over the members (c13Canon) WITHOUT registering it; the caller registers the returned
+// node right after the call (ghost update on `ret1`) before it builds on it. (Designed when the engine offered no handle on an unnamed
+// `&shortNode{…}` at a return, engine_requests/C13.md #3; kept: it is sound and the root itself may stay unregistered.) Objects under construction
+// and discarded copies are simply never registered.
+// Unbounded depth: the recursive calls use the function's own contract (induction on the recursion).
+//@ ghost var c13S: set[Ref]
+//@ ghost var c13F: set[Ref]
+// the byte arrays used as `prefix` buffers (grown by append, possibly in place): no key of a member lives in one of them, so the only bytes
+// insert/delete ever write (append's spare capacity) are not key bytes
+//@ ghost var c13P: set[Ref]
+// "this hash reference names a branch (full) node in the database": uninterpreted oracle on hash references, see resolveHash below.
+//@ spec func c13Branchy(h: hashNode) bool
+//@ spec func c13Ref(v: node) bool =
+//@     hastype(v, valueNode) || hastype(v, hashNode) ||
+//@     (hastype(v, *shortNode) && in(unbox(v, *shortNode), c13S)) || (hastype(v, *fullNode) && in(unbox(v, *fullNode), c13F))
+// the child of a short node is never a short node (nor a reference to one)
+//@ spec func c13NonShort(v: node) bool = !hastype(v, *shortNode) && (hastype(v, hashNode) ==> c13Branchy(unbox(v, hashNode)))
+// a hex key (or a piece of one): nibbles, except that the LAST entry may be the terminator 16
+//@ spec func c13KeyWF(k: []byte) bool = forall p: int :: off(k) <= p && p < off(k) + len(k) ==> elems(k)[p] <= 16 && (p < off(k) + len(k) - 1 ==> elems(k)[p] < 16)
+//@ spec func c13IsV(v: node) bool = hastype(v, valueNode)
+// short node: non-empty key of nibbles; it ends with the terminator exactly when the child is a value; the child is not a short node
+//@ spec func c13LocalS(s: *shortNode) bool = s != nil && allocated(s) && len(s.Key) > 0 && base(s.Key) < alloc() && !in(base(s.Key), c13P) && c13Ref(s.Val) && c13NonShort(s.Val) &&
+//@     (forall p: int :: p == off(s.Key) + len(s.Key) - 1 ==> (c13IsV(s.Val) <==> elems(s.Key)[p] == 16)) && c13KeyWF(s.Key)     // (last position as a bound variable: solver-friendly)
+// a full node has at least two occupied slots (children 0..15, value slot 16) …
+//@ spec func c13One(v: node) int = if v == nil then 0 else 1
+//@ spec func c13Cnt(f: *fullNode) int =
+//@     c13One(f.Children[0]) + c13One(f.Children[1]) + c13One(f.Children[2]) + c13One(f.Children[3]) + c13One(f.Children[4]) + c13One(f.Children[5]) +
+//@     c13One(f.Children[6]) + c13One(f.Children[7]) + c13One(f.Children[8]) + c13One(f.Children[9]) + c13One(f.Children[10]) + c13One(f.Children[11]) +
+//@     c13One(f.Children[12]) + c13One(f.Children[13]) + c13One(f.Children[14]) + c13One(f.Children[15]) + c13One(f.Children[16])
+//@ spec func c13Two(f: *fullNode) bool = c13Cnt(f) >= 2
+// occupied slots among 0..r (delete's scan)
+//@ spec func c13OneTo(v: node, k: int, r: int) int = if k <= r && v != nil then 1 else 0
+//@ spec func c13CntUpTo(f: *fullNode, r: int) int =
+//@     c13OneTo(f.Children[0], 0, r) + c13OneTo(f.Children[1], 1, r) + c13OneTo(f.Children[2], 2, r) + c13OneTo(f.Children[3], 3, r) + c13OneTo(f.Children[4], 4, r) +
+//@     c13OneTo(f.Children[5], 5, r) + c13OneTo(f.Children[6], 6, r) + c13OneTo(f.Children[7], 7, r) + c13OneTo(f.Children[8], 8, r) + c13OneTo(f.Children[9], 9, r) +
+//@     c13OneTo(f.Children[10], 10, r) + c13OneTo(f.Children[11], 11, r) + c13OneTo(f.Children[12], 12, r) + c13OneTo(f.Children[13], 13, r) +
+//@     c13OneTo(f.Children[14], 14, r) + c13OneTo(f.Children[15], 15, r) + c13OneTo(f.Children[16], 16, r)
+// … and every occupied slot holds a canonical reference: a value exactly in the value slot 16
+//@ spec func c13Kids(f: *fullNode) bool = forall i: int :: { f.Children[i] } 0 <= i && i <= 16 ==> f.Children[i] == nil || (c13Ref(f.Children[i]) && (c13IsV(f.Children[i]) <==> i == 16))
+//@ spec func c13LocalF(f: *fullNode) bool = f != nil && allocated(f) && c13Two(f) && c13Kids(f)
+//@ spec func c13InvS() bool = forall s: *shortNode :: { in(s, c13S) } in(s, c13S) ==> c13LocalS(s)
+//@ spec func c13InvF() bool = forall f: *fullNode :: { in(f, c13F) } in(f, c13F) ==> c13LocalF(f)
+//@ spec func c13InvP() bool = forall r: Ref :: { in(r, c13P) } in(r, c13P) ==> r != 0 && allocated(r)
+//@ spec func c13Inv() bool = c13InvS() && c13InvF() && c13InvP()
+// canonical over the members: a leaf, a member, or a locally canonical node all of whose children are members
+//@ spec func c13Canon(v: node) bool =
+//@     hastype(v, valueNode) || hastype(v, hashNode) ||
+//@     (hastype(v, *shortNode) && (in(unbox(v, *shortNode), c13S) || c13LocalS(unbox(v, *shortNode)))) ||
+//@     (hastype(v, *fullNode) && (in(unbox(v, *fullNode), c13F) || c13LocalF(unbox(v, *fullNode))))
+// registering a returned node
+//@ spec func c13RegS(v: node, ok: bool) set[Ref] = if ok && hastype(v, *shortNode) then store(c13S, unbox(v, *shortNode), true) else c13S
+//@ spec func c13RegF(v: node, ok: bool) set[Ref] = if ok && hastype(v, *fullNode) then store(c13F, unbox(v, *fullNode), true) else c13F
+// (the triggers name the sets of the state the clause is evaluated in, never the `old` ones: at a call site the old sets are ghost-update macros
+//  with ite/and inside, which z3 refuses in patterns — engine_requests/C13.md #5)
+// the member sets and the buffer set only grow …
+//@ spec func c13Kept(s0: set[Ref], f0: set[Ref], p0: set[Ref]) bool =
+//@     (forall r: Ref :: { in(r, c13S) } in(r, s0) ==> in(r, c13S)) && (forall r: Ref :: { in(r, c13F) } in(r, f0) ==> in(r, c13F)) &&
+//@     (forall r: Ref :: { in(r, c13P) } in(r, p0) ==> in(r, c13P))
+// … and only by objects allocated during the call (a0 = allocation counter at entry): nothing the caller has under construction is registered
+//@ spec func c13OnlyNew(s0: set[Ref], f0: set[Ref], p0: set[Ref], a0: int) bool =
+//@     (forall r: Ref :: { in(r, c13S) } r < a0 && in(r, c13S) ==> in(r, s0)) && (forall r: Ref :: { in(r, c13F) } r < a0 && in(r, c13F) ==> in(r, f0)) &&
+//@     (forall r: Ref :: { in(r, c13P) } r < a0 && in(r, c13P) ==> in(r, p0))
+//@ spec func c13SameNode(v: node, w: node) bool =
+//@     (hastype(v, *shortNode) && hastype(w, *shortNode) && unbox(v, *shortNode) == unbox(w, *shortNode)) ||
+//@     (hastype(v, *fullNode) && hastype(w, *fullNode) && unbox(v, *fullNode) == unbox(w, *fullNode))
+// a node on the modified path carries fresh flags: dirty, and NO cached hash (a stale hash would be reused by the hasher: wrong root)
+//@ spec func c13FreshFlags(v: node) bool =
+//@     (hastype(v, *shortNode) ==> unbox(v, *shortNode).flags.dirty && isnil(unbox(v, *shortNode).flags.hash)) &&
+//@     (hastype(v, *fullNode) ==> unbox(v, *fullNode).flags.dirty && isnil(unbox(v, *fullNode).flags.hash))
+// a node object allocated at or after a0
+//@ spec func c13NewNode(v: node, a0: int) bool = (hastype(v, *shortNode) && unbox(v, *shortNode) >= a0) || (hastype(v, *fullNode) && unbox(v, *fullNode) >= a0)
+
+// resolveHash (database read + decode): ASSUMED, body not verified. The node database is canonical: what it returns for a hash reference is a
+// freshly decoded short or full node in canonical form (with its embedded children, all registered), a full node exactly when the reference is
+// `branchy`; no existing node is written.
+//@ func (*Trie).resolveHash props C13
+//@ nobody
+//@ modifies c13S, c13F
+//@ ensures [inv] old(c13Inv()) ==> c13Inv()
+//@ ensures [members-kept] c13Kept(old(c13S), old(c13F), old(c13P))
+//@ ensures [only-new-members] c13OnlyNew(old(c13S), old(c13F), old(c13P), old(alloc()))
+//@ ensures [node] result1 == nil ==> c13Ref(result0) && (hastype(result0, *shortNode) || hastype(result0, *fullNode)) && (c13Branchy(n) <==> hastype(result0, *fullNode))
+//@ ensures [error] result1 != nil ==> result0 == nil
+
+// (proof-local ghosts of insert: the branch under construction and the node that came back for its second slot)
+//@ ghost var c13Br: *fullNode
+//@ ghost var c13Nn: node
+// … and the two slot numbers (the first nibbles in which the old key and the new key differ), read once right after the second re-insertion
+//@ ghost var c13A: int
+//@ ghost var c13B: int
+//@ func (*Trie).insert props C13
+//@ panics none
+//@ opt per-return
+//@ requires [nonnil] t != nil
+//@ requires [inv] c13Inv()
+//@ requires [node] n == nil || c13Canon(n)
+//@ requires [value] c13Ref(value) && c13NonShort(value)
+// key is what is left of a hex key; the value's kind matches the place it goes to: a value node at the terminator, a subtree (insert's own
+// re-insertion of a split short node's child) elsewhere
+//@ requires [key] c13KeyWF(key) && (len(key) > 0 ==> (c13IsV(value) <==> key[len(key)-1] == 16))
+//@ requires [slot] len(key) == 0 ==> n == nil || (c13IsV(value) <==> c13IsV(n))
+//@ requires [node-kind] len(key) > 0 ==> !c13IsV(n)
+//@ requires [update] n != nil ==> c13IsV(value)
+//@ requires [prefix-buffer] base(prefix) == 0 || in(base(prefix), c13P)
+//@ requires [key-not-in-buffer] !in(base(key), c13P)
+// persistent structure: no field of an existing node is written; the only existing bytes written are the spare capacity of the prefix buffer
+//@ modifies elems(prefix), c13S, c13F, c13P, c13Br, c13Nn, c13A, c13B
+// (call #5 = the recursion into n.Val when the whole of n.Key matches; the stepping stone names the array cells the solver has to look at:
+//  a value child means n.Key ends with the terminator, key carries it at the same place, and the terminator is the end of key)
+//@ assert before call (*Trie).insert#5: [matched-last-nibble] key[matchlen-1] == n.Key[matchlen-1] && matchlen == len(n.Key) && matchlen >= 1
+//@ assert before call (*Trie).insert#5: [terminator-ends-key] (c13IsV(n.Val) <==> n.Key[matchlen-1] == 16) && (key[matchlen-1] == 16 ==> matchlen == len(key))
+// (calls #3/#4 = re-insertion of the split node's child / insertion of the new value below the new branch: what comes back is a value exactly
+//  when the slot it goes to is the value slot 16)
+//@ assert after call (*Trie).insert#3: [old-subtree-kind] ret2 == nil ==> (c13IsV(ret1) <==> n.Key[matchlen] == 16) && n.Key[matchlen] <= 16
+//@ assert after call (*Trie).insert#4: [slots-differ] n.Key[matchlen] != key[matchlen] && n.Key[matchlen] <= 16 && key[matchlen] <= 16
+//@ assert after call (*Trie).insert#4: [old-subtree-in-place] ret2 == nil ==> branch.Children[n.Key[matchlen]] != nil && ret1 != nil
+//@ assert after call (*Trie).insert#4: [old-subtree-slot-kind] ret2 == nil ==> c13Ref(branch.Children[n.Key[matchlen]]) && (c13IsV(branch.Children[n.Key[matchlen]]) <==> n.Key[matchlen] == 16)
+//@ assert after call (*Trie).insert#4: [other-slots-empty] forall i: int :: 0 <= i && i <= 16 && i != n.Key[matchlen] ==> branch.Children[i] == nil
+//@ assert after call (*Trie).insert#4: [new-value-kind] ret2 == nil ==> (c13IsV(ret1) <==> key[matchlen] == 16) && key[matchlen] <= 16
+//@ ghost before call (*Trie).insert: c13P := if base(a2) != 0 then store(c13P, base(a2), true) else c13P
+//@ ghost after call (*Trie).insert: c13S := c13RegS(ret1, ret2 == nil)
+//@ ghost after call (*Trie).insert: c13F := c13RegF(ret1, ret2 == nil)
+//@ ghost after call (*Trie).insert#4: c13F := if ret2 == nil then store(c13F, branch, true) else c13F
+//@ ghost after call (*Trie).insert#4: c13Br := branch
+//@ ghost after call (*Trie).insert#4: c13Nn := ret1
+//@ ghost after call (*Trie).insert#4: c13A := n.Key[matchlen]
+//@ ghost after call (*Trie).insert#4: c13B := key[matchlen]
+// (stepping stones at single return statements.
+//  Returns are numbered in the engine's block order: #7 = `return true, &shortNode{key[:matchlen], branch, …}`, #8 = `return true, branch, nil`; c13Br is the branch)
+//@ assert before return#7: [branch-slot-numbers] c13A != c13B && 0 <= c13A && c13A <= 16 && 0 <= c13B && c13B <= 16 && c13Br != nil
+//@ assert before return#8: [branch-slot-numbers] c13A != c13B && 0 <= c13A && c13A <= 16 && 0 <= c13B && c13B <= 16 && c13Br == branch
+//@ assert before return#7: [branch-second-slot] c13Br.Children[c13B] == c13Nn && c13Nn != nil
+//@ assert before return#8: [branch-second-slot] c13Br.Children[c13B] == c13Nn && c13Nn != nil
+//@ assert before return#7: [branch-first-slot] c13Br.Children[c13A] != nil
+//@ assert before return#8: [branch-first-slot] c13Br.Children[c13A] != nil
+//@ assert before return#7: [branch-has-two-children] c13Cnt(c13Br) >= 2
+//@ assert before return#8: [branch-has-two-children] c13Cnt(c13Br) >= 2
+//@ assert before return#7: [branch-other-slots-empty] forall i: int :: 0 <= i && i <= 16 && i != c13A && i != c13B ==> c13Br.Children[i] == nil
+//@ assert before return#8: [branch-other-slots-empty] forall i: int :: 0 <= i && i <= 16 && i != c13A && i != c13B ==> c13Br.Children[i] == nil
+//@ assert before return#7: [branch-old-subtree-slot] c13Ref(c13Br.Children[c13A]) && (c13IsV(c13Br.Children[c13A]) <==> c13A == 16)
+//@ assert before return#8: [branch-old-subtree-slot] c13Ref(c13Br.Children[c13A]) && (c13IsV(c13Br.Children[c13A]) <==> c13A == 16)
+//@ assert before return#7: [branch-new-value-slot] c13Ref(c13Br.Children[c13B]) && (c13IsV(c13Br.Children[c13B]) <==> c13B == 16)
+//@ assert before return#8: [branch-new-value-slot] c13Ref(c13Br.Children[c13B]) && (c13IsV(c13Br.Children[c13B]) <==> c13B == 16)
+//@ assert before return#7: [branch-kids] c13Kids(c13Br)
+//@ assert before return#8: [branch-kids] c13Kids(branch)
+// (#5 = `return true, n, nil` of the full-node case: n is the modified COPY; f0 the node given)
+//@ let f0 = unbox(n, *fullNode)
+//@ assert before return#5: [copy-differs-in-one-slot] n != f0 && n.Children[key[0]] != nil && (forall i: int :: 0 <= i && i <= 16 && i != key[0] ==> n.Children[i] == f0.Children[i])
+//@ assert before return#5: [copy-new-slot] c13Ref(n.Children[key[0]]) && (c13IsV(n.Children[key[0]]) <==> key[0] == 16)
+//@ assert before return#5: [copy-has-two-children] c13Cnt(n) >= 2
+//@ assert before return#5: [copy-kids] c13Kids(n)
+// (`opt per-return`: every postcondition is checked at each return statement, in that statement's own state)
+//@ ensures [inv-short-members] c13InvS()
+//@ ensures [inv-full-members] c13InvF()
+//@ ensures [inv-buffers] c13InvP()
+//@ ensures [members-kept] c13Kept(old(c13S), old(c13F), old(c13P))
+//@ ensures [only-new-members] c13OnlyNew(old(c13S), old(c13F), old(c13P), old(alloc()))
+//@ ensures [canon] result2 == nil ==> c13Canon(result1)
+//@ ensures [non-short] result2 == nil && n != nil && c13NonShort(n) ==> c13NonShort(result1)
+//@ ensures [kind] result2 == nil ==> (c13IsV(result1) <==> len(key) == 0 && c13IsV(value))
+// a changed subtree (dirty reported) comes back as the subtree handed in as `value`, or as a node built during the call with fresh flags: dirty and NO cached hash
+//@ ensures [dirty-result-is-built] result2 == nil && result0 && (hastype(result1, *shortNode) || hastype(result1, *fullNode)) ==> c13SameNode(result1, value) || (c13NewNode(result1, old(alloc())) && c13FreshFlags(result1))
+// where the returned node comes from: the node given, a registered node / leaf, or a node built during the call
+// (`same object`, not `==`: the code re-boxes the pointer, and the engine does not know box(unbox(i)) == i, engine_requests/C13.md #4)
+//@ ensures [origin] result2 == nil ==> c13SameNode(result1, n) || c13Ref(result1) || c13NewNode(result1, old(alloc()))
+
+// delete: same invariant; what comes back is nil (subtree emptied) or a canonical short/full node. A full node — given directly or through a
+// branchy hash reference — never disappears: it keeps two slots, or collapses into a short node.
+//@ func (*Trie).delete props C13
+//@ opt per-return
+//@ requires [nonnil] t != nil
+//@ requires [inv] c13Inv()
+//@ requires [node] n == nil || c13Canon(n)
+//@ requires [key] c13KeyWF(key) && (len(key) > 0 ==> key[len(key)-1] == 16)
+//@ requires [slot] len(key) == 0 ==> n == nil || c13IsV(n)
+//@ requires [node-kind] len(key) > 0 ==> !c13IsV(n)
+//@ requires [prefix-buffer] base(prefix) == 0 || in(base(prefix), c13P)
+//@ requires [key-not-in-buffer] !in(base(key), c13P)
+//@ modifies elems(prefix), c13S, c13F, c13P
+//@ ghost before call (*Trie).delete: c13P := if base(a2) != 0 then store(c13P, base(a2), true) else c13P
+//@ ghost after call (*Trie).delete: c13S := c13RegS(ret1, ret2 == nil)
+//@ ghost after call (*Trie).delete: c13F := c13RegF(ret1, ret2 == nil)
+// (call #3 = the recursion into n.Val of a short node whose whole key matches, #2 = into a slot of a full node, #1 = into the resolved node;
+//  returns are numbered from the LAST return statement of the source upwards: #6 `return true, n, nil` (n = the modified copy, >= 2 slots left),
+//  #7 one-nibble short node over the only slot left, #8 merge with the short node in the only slot left, #11/#12 rebuilt short node / merge)
+//@ assert before call (*Trie).delete#3: [matched-last-nibble] key[matchlen-1] == n.Key[matchlen-1] && matchlen == len(n.Key) && matchlen >= 1 && matchlen < len(key)
+//@ assert before call (*Trie).delete#3: [terminator-ends-key] (c13IsV(n.Val) <==> n.Key[matchlen-1] == 16) && (key[matchlen-1] == 16 ==> matchlen == len(key))
+//@ assert after call (*Trie).delete#3: [child-survives] ret2 == nil && ret0 ==> ret1 != nil && (hastype(ret1, *shortNode) || hastype(ret1, *fullNode))
+//@ assert after call (*Trie).delete#2: [slot-kind-kept] ret2 == nil ==> ret1 == nil || (!c13IsV(ret1) && key[0] != 16 && (hastype(ret1, *shortNode) || hastype(ret1, *fullNode)))
+//@ let f0 = unbox(n, *fullNode)
+//@ assert before return#6: [copy-differs-in-one-slot] n != f0 && (forall i: int :: 0 <= i && i <= 16 && i != key[0] ==> n.Children[i] == f0.Children[i])
+//@ assert before return#7: [copy-differs-in-one-slot] n != f0 && (forall i: int :: 0 <= i && i <= 16 && i != key[0] ==> n.Children[i] == f0.Children[i])
+//@ assert before return#8: [copy-differs-in-one-slot] n != f0 && (forall i: int :: 0 <= i && i <= 16 && i != key[0] ==> n.Children[i] == f0.Children[i])
+//@ assert before return#6: [copy-new-slot] n.Children[key[0]] == nil || (c13Ref(n.Children[key[0]]) && !c13IsV(n.Children[key[0]]) && key[0] != 16)
+//@ assert before return#7: [copy-new-slot] n.Children[key[0]] == nil || (c13Ref(n.Children[key[0]]) && !c13IsV(n.Children[key[0]]) && key[0] != 16)
+//@ assert before return#8: [copy-new-slot] n.Children[key[0]] == nil || (c13Ref(n.Children[key[0]]) && !c13IsV(n.Children[key[0]]) && key[0] != 16)
+//@ assert before return#6: [scan-broke-off] pos == -2 && 0 <= rangeindex + 1 && rangeindex + 1 <= 16 && n.Children[rangeindex + 1] != nil && c13CntUpTo(n, rangeindex) == 1
+//@ assert before return#6: [scan-found-two] c13CntUpTo(n, rangeindex + 1) == 2
+//@ assert before return#6: [scan-counts-some] c13Cnt(n) >= c13CntUpTo(n, rangeindex + 1)
+//@ assert before return#6: [copy-has-two-children] c13Cnt(n) >= 2
+//@ assert before return#6: [copy-kids] c13Kids(n)
+//@ assert before return#7: [only-slot-left] 0 <= pos && pos <= 16 && c13Ref(n.Children[pos]) && c13NonShort(n.Children[pos]) && (c13IsV(n.Children[pos]) <==> pos == 16)
+//@ assert before return#7: [collapsed-node] hastype(result1, *shortNode) && unbox(result1, *shortNode) != nil && allocated(unbox(result1, *shortNode)) &&
+//@     unbox(result1, *shortNode).Val == n.Children[pos] && len(unbox(result1, *shortNode).Key) == 1 && unbox(result1, *shortNode).Key[0] == pos
+//@ assert before return#7: [collapsed-key-array] base(unbox(result1, *shortNode).Key) < alloc() && !in(base(unbox(result1, *shortNode).Key), c13P)
+//@ assert before return#7: [collapsed-key] c13KeyWF(unbox(result1, *shortNode).Key)
+//@ assert before return#7: [collapsed-local] c13LocalS(unbox(result1, *shortNode))
+//@ assert before return#8: [merge-only-slot-left] 0 <= pos && pos < 16 && c13LocalS(cnode) && len(k) == 1 + len(cnode.Key) && k[0] == pos
+//@ loop rangeindex invariant [ghost-frame] c13S == entry(c13S) && c13F == entry(c13F) && c13P == entry(c13P)
+//@ loop rangeindex invariant [index] -1 <= rangeindex && rangeindex <= 16
+//@ loop rangeindex invariant [pos] pos == -1 || (0 <= pos && pos <= rangeindex)
+//@ loop rangeindex invariant [count-so-far] (pos == -1 ==> c13CntUpTo(n, rangeindex) == 0) && (pos >= 0 ==> c13CntUpTo(n, rangeindex) == 1)
+//@ loop rangeindex invariant [none-so-far] pos == -1 ==> (forall k: int :: 0 <= k && k <= rangeindex ==> n.Children[k] == nil)
+//@ loop rangeindex invariant [one-so-far] pos >= 0 ==> n.Children[pos] != nil && (forall k: int :: 0 <= k && k <= rangeindex && k != pos ==> n.Children[k] == nil)
+// the merged keys keep both segments: n.Key ++ child.Key (#12), nibble pos ++ cnode.Key (#8)
+//@ assert before return#12: [merged-key-keeps-both-segments] len(unbox(result1, *shortNode).Key) == len(n.Key) + len(child.Key) &&
+//@     (forall p: int :: off(unbox(result1, *shortNode).Key) <= p && p < off(unbox(result1, *shortNode).Key) + len(n.Key) ==>
+//@         elems(unbox(result1, *shortNode).Key)[p] == n.Key[p - off(unbox(result1, *shortNode).Key)]) &&
+//@     (forall p: int :: off(unbox(result1, *shortNode).Key) + len(n.Key) <= p && p < off(unbox(result1, *shortNode).Key) + len(n.Key) + len(child.Key) ==>
+//@         elems(unbox(result1, *shortNode).Key)[p] == child.Key[p - off(unbox(result1, *shortNode).Key) - len(n.Key)])
+//@ assert before return#8: [merged-key-keeps-both-segments] unbox(result1, *shortNode).Key == k && len(k) == 1 + len(cnode.Key) && k[0] == pos
+//@ ensures [inv-short-members] c13InvS()
+//@ ensures [inv-full-members] c13InvF()
+//@ ensures [inv-buffers] c13InvP()
+//@ ensures [members-kept] c13Kept(old(c13S), old(c13F), old(c13P))
+//@ ensures [only-new-members] c13OnlyNew(old(c13S), old(c13F), old(c13P), old(alloc()))
+//@ ensures [kind] result2 == nil ==> result1 == nil || hastype(result1, *shortNode) || hastype(result1, *fullNode)
+//@ ensures [canon] result2 == nil ==> result1 == nil || c13Canon(result1)
+//@ ensures [leaf-removed] result2 == nil && (n == nil || c13IsV(n)) ==> result1 == nil
+// a changed subtree comes back as a node built during the call, with fresh flags: dirty and no cached hash
+//@ ensures [dirty-result-is-built] result2 == nil && result0 && (hastype(result1, *shortNode) || hastype(result1, *fullNode)) ==> c13NewNode(result1, old(alloc())) && c13FreshFlags(result1)
+//@ ensures [branch-survives] result2 == nil && (hastype(n, *fullNode) || (hastype(n, hashNode) && c13Branchy(unbox(n, hashNode)))) ==> result1 != nil
+//@ ensures [origin] result2 == nil ==> result1 == nil || c13SameNode(result1, n) || c13Ref(result1) || c13NewNode(result1, old(alloc()))
+
+// ---------------------------------------------------------------------------------------------------------------------
+// The exported mutators: every TryUpdate / TryDelete takes a canonical trie to a canonical trie (the root is nil or a canonical short/full node
+// or a hash reference; never a bare value), whatever the key and value, and writes no field of an existing node.
+//@ spec func c13Root(v: node) bool = v == nil || (c13Canon(v) && !c13IsV(v))
+
+//@ func (*Trie).TryUpdate props C13
+//@ requires [nonnil] t != nil
+//@ requires [inv] c13Inv()
+//@ requires [root] c13Root(t.root)
+// (all(elems(byte)): engine_requests/C13.md #6 — in fact no existing byte is written: the prefix buffer starts as nil)
+//@ modifies t.root, all(elems(byte)), c13S, c13F, c13P, c13Br, c13Nn, c13A, c13B
+//@ ensures [inv] c13Inv()
+//@ ensures [root] c13Root(t.root)
+//@ ensures [members-kept] c13Kept(old(c13S), old(c13F), old(c13P))
+//@ ensures [only-new-members] c13OnlyNew(old(c13S), old(c13F), old(c13P), old(alloc()))
+//@ ensures [error-keeps-root] result != nil ==> t.root == old(t.root)
+
+//@ func (*Trie).TryDelete props C13
+//@ requires [nonnil] t != nil
+//@ requires [inv] c13Inv()
+//@ requires [root] c13Root(t.root)
+// (all(elems(byte)): engine_requests/C13.md #6 — in fact no existing byte is written: the prefix buffer starts as nil)
+//@ modifies t.root, all(elems(byte)), c13S, c13F, c13P, c13Br, c13Nn, c13A, c13B
+//@ ensures [inv] c13Inv()
+//@ ensures [root] c13Root(t.root)
+//@ ensures [members-kept] c13Kept(old(c13S), old(c13F), old(c13P))
+//@ ensures [only-new-members] c13OnlyNew(old(c13S), old(c13F), old(c13P), old(alloc()))
+//@ ensures [error-keeps-root] result != nil ==> t.root == old(t.root)
+
+// ---------------------------------------------------------------------------------------------------------------------
+// GROUP 3 — thin typestate clauses (guards at program points; no functional contract of the hasher / proof code is claimed).
+
+// hasher.hash: the dirty flag of a node is cleared only in commit mode (a database to write to was given), and only on the node whose hash
+// was just computed and cached in the same step.
+//@ func (*hasher).hash props C13
+//@ assert before store dirty#1: [dirty-cleared-only-by-commit] db != nil
+//@ assert before store dirty#2: [dirty-cleared-only-by-commit] db != nil
+//@ assert before store dirty#1: [clears-to-clean] value == false
+//@ assert before store dirty#2: [clears-to-clean] value == false
+
+// the proof database is only read
+//@ func (DatabaseReader).Get props C13
+//@ trusted
+//@ modifies nothing
+//@ func decodeNode props C13
+//@ nobody
+//@ modifies nothing
+
+// VerifyProof: every node it decodes is exactly the byte string the proof database returned for the hash wanted at that step, and it is
+// decoded under that hash (that the hash wanted at step 0 is the root hash is not stated: engine_requests/C13.md #7); a missing node ends the verification with an error.
+//@ ghost var c13Fetched: Slice
+//@ func VerifyProof props C13
+//@ ghost after call (DatabaseReader).Get: c13Fetched := ret0
+//@ modifies all, c13Fetched
+//@ assert before call (DatabaseReader).Get: [looked-up-under-wanted-hash] len(a0) == 32 && (forall k: int :: 0 <= k && k < 32 ==> a0[k] == wantHash[k])
+//@ assert before call decodeNode: [decodes-what-was-fetched] a1 == c13Fetched && !isnil(a1)
+//@ assert before call decodeNode: [decoded-under-wanted-hash] len(a0) == 32 && (forall k: int :: 0 <= k && k < 32 ==> a0[k] == wantHash[k])
